@@ -622,6 +622,10 @@ def r7_plumbing(ctx, m, me) -> None:
             allform = f"all((isinstance({h_}[c0].op, {boundary}) for c0 in {it}))"
             for p in ps:
                 # any() form (canonically `not all(<is boundary>)`)
+                # (both directions asked in one answer: `<out> or <in>`)
+                operands = [u(v_) for v_ in p.value.values] if p.kind == "return" and isinstance(p.value, ast.BoolOp) and isinstance(p.value.op, ast.Or) else []
+                if anyform in operands or f"not {allform}" in operands:
+                    good = True
                 if (p.kind == "return" and p.value_text() in (anyform, f"not {allform}")) or (p.kind == "return" and p.value_text() == "True" and (
                         p.has_test(anyform, True) is not None or p.has_test(allform, False) is not None)):
                     good = True
